@@ -168,6 +168,8 @@ def shapes(tier="quick", seed=0):
                                       op("/o4", "get", "get_a_2", ["o"]), op("/o5", "get", "get_a", ["o"]), op("/o6", "get", "get-a", ["o"])]), opid_collisions=True)
     add("opid-collision-overlapping-tags", doc("OT", [op("/t1", "get", "list_all", ["Users"]), op("/t2", "get", "listAll", ["Admin", "Users"]),
                                                        op("/t3", "get", "list-all", ["Admin"])]), opid_collisions=True, multi_tag=True)
+    add("opid-collision-tag-spellings", doc("OS", [op("/u1", "get", "get-user", ["Users"]), op("/u2", "get", "get_user", ["users"]), op("/u3", "get", "getUser", ["USERS"]),
+                                                    op("/d1", "get", "list-it", None), op("/d2", "get", "list_it", ["Default"])]), opid_collisions=True, tag_variants=True)
     add("secondary-stream-response", doc("SS", [op("/rep", "get", "getReport", ["rep"], responses={
         "200": resp_json({"type": "array", "items": PRIMS["str"]}), "206": {"description": "part", "content": {"application/octet-stream": {"schema": PRIMS["binary"]}}}})]), streams=True)
     add("two-multi-content-ops", doc("MM", [
